@@ -135,13 +135,17 @@ def wiring(chk, r, n, drv):
 
     model_reqs = []
     for it in range(n):
-        n_alleles, haps, ploidy, kind, freqs, F, alleles, reads, counts = gen_call_instance(r, max_haps=6)
+        big = it % 5 == 4          # panels of 40-300 haplotypes / pooled ploidies: ploidy x haplotypes far above 128
+        n_alleles, haps, ploidy, kind, freqs, F, alleles, reads, counts = \
+            gen_call_instance(r, max_haps=6, panel=big and it % 10 == 4, pooled=big and it % 10 == 9)
         if len(haps) < 2:
             continue
         if it % 3 == 0:
             freqs = None
         if F == 0:
-            F = r.choice([0.0, 0.15, 0.4])
+            F = r.choice([0.0, 0.15, 0.4]) if not big else r.choice([0.15, 0.4])
+        if big:
+            chk.count("wiring:large-instance(ploidy x haplotypes > 128)" if ploidy * len(haps) > 128 else "wiring:large-instance-not-above-128")
         harr = np.array(haps, dtype=np.int8)
         st = it % 2
         n_h = len(haps)
